@@ -139,6 +139,20 @@ func runK3(r *rng, n int) {
 		// unsegmented reference delivery, both EOF styles
 		emitSeg("gen", nil, false)
 		emitSeg("gen", nil, true)
+		// every truncation point of a short stream, the last bytes arriving together with io.EOF
+		// (in one read and in two): the stream may end exactly between two read vectors
+		if len(stream) <= 160 && r.chance(1, 3) {
+			full := stream
+			for cut := 1; cut < len(full); cut++ {
+				stream = full[:cut]
+				emitSeg("gen", nil, true)
+				if cut > 8 {
+					emitSeg("gen", []int{7}, true)
+				}
+			}
+			stream = full
+			count("truncation-sweep")
+		}
 		if len(stream) <= 80 {
 			// every single split point, and byte-by-byte
 			for c := 1; c < len(stream); c++ {
